@@ -1,0 +1,81 @@
+//! Verification hooks. Compiled only with `--cfg dandavison_delta_verif`; nothing here is part of
+//! a normal build. `sync(label, value)` is an ordering point: if the environment variable
+//! DELTA_VERIF_SCHEDULE holds a comma-separated list of labels, a call blocks until its label is the
+//! next one due in that list (calls whose label does not occur in the remainder of the list pass
+//! straight through). Every call is appended to the file named by DELTA_VERIF_TRACE as one JSON
+//! object per line.
+use std::io::Write;
+use std::sync::{Condvar, Mutex};
+
+use lazy_static::lazy_static;
+
+struct Sched {
+    labels: Vec<String>,
+    next: usize,
+}
+
+lazy_static! {
+    static ref SCHED: (Mutex<Sched>, Condvar) = {
+        let labels = std::env::var("DELTA_VERIF_SCHEDULE")
+            .map(|s| {
+                s.split(',')
+                    .filter(|x| !x.is_empty())
+                    .map(|x| x.to_string())
+                    .collect()
+            })
+            .unwrap_or_default();
+        (Mutex::new(Sched { labels, next: 0 }), Condvar::new())
+    };
+}
+
+pub fn sync(label: &str, value: &str) {
+    let (lock, cvar) = &*SCHED;
+    let mut s = lock.lock().unwrap();
+    loop {
+        let due = s.labels[s.next.min(s.labels.len())..]
+            .iter()
+            .position(|l| l == label);
+        match due {
+            // not (or no longer) scheduled: do not wait
+            None => break,
+            Some(0) => {
+                s.next += 1;
+                break;
+            }
+            Some(_) => {
+                // wait until the labels before ours have been consumed (bounded: a schedule the code
+                // cannot follow must not hang the process forever)
+                let (guard, timeout) = cvar
+                    .wait_timeout(s, std::time::Duration::from_secs(5))
+                    .unwrap();
+                s = guard;
+                if timeout.timed_out() {
+                    log(label, "TIMEOUT");
+                    s.next = s.labels.len();
+                    break;
+                }
+            }
+        }
+    }
+    log(label, value);
+    cvar.notify_all();
+}
+
+fn log(label: &str, value: &str) {
+    if let Ok(path) = std::env::var("DELTA_VERIF_TRACE") {
+        if let Ok(mut f) = std::fs::OpenOptions::new()
+            .create(true)
+            .append(true)
+            .open(path)
+        {
+            let thread = std::thread::current();
+            let _ = writeln!(
+                f,
+                "{{\"label\":\"{}\",\"value\":\"{}\",\"thread\":\"{}\"}}",
+                label,
+                value,
+                thread.name().unwrap_or("?")
+            );
+        }
+    }
+}
